@@ -157,16 +157,16 @@ def run(tier):
         elif op in ("mat", "sym"):
             continue
         elif op == "scalars":
-            name = c["name"]
-            fs, fp = al.SCALARS[name]
-            cid = (name, "scalars")
+            name, st = c["name"], c.get("st", "float")
+            fs, fp = al.scalars(name, st)
+            cid = (name, "scalars", st)
             try:
-                ok = al.identical(fs(), fp())
+                ok = al.close(fs(), fp()) if "32" in st or "int" in st else al.identical(fs(), fp())
             except Exception as ex:  # noqa: BLE001
-                j.fail("%s|%s|scalars-vs-packed|raised-%s" % (PID, name, type(ex).__name__), {"kind": "scalars", "call": c}, cid)
+                j.fail("%s|%s|scalars-vs-packed;%s|raised-%s" % (PID, name, st, type(ex).__name__), {"kind": "scalars", "call": c}, cid)
                 continue
             if not ok:
-                j.fail("%s|%s|scalars-vs-packed|differ" % (PID, name), {"kind": "scalars", "call": c}, cid)
+                j.fail("%s|%s|scalars-vs-packed;%s|differ" % (PID, name, st), {"kind": "scalars", "call": c}, cid)
             else:
                 j.ok(cid)
     j.sample({"case": cases[10]})
